@@ -112,6 +112,9 @@ class Result:
     raises: List[Tuple[ast.AST, List[Tuple[ast.AST, bool]], ast.Raise]] = field(default_factory=list)
     sites: Dict[int, ast.AST] = field(default_factory=dict)
     site_nodes: Dict[int, ast.AST] = field(default_factory=dict)
+    closures: Dict[str, tuple] = field(default_factory=dict)  # '$closure_k' -> (FunctionDef, env snapshot, FuncInfo)
+    guards_at_end: list = field(default_factory=list)
+    ended_by_raise: bool = False
 
     def ret_value(self) -> ast.AST:
         if not self.returns:
@@ -243,8 +246,13 @@ def simp1(node: ast.AST) -> ast.AST:
             if isinstance(x, ast.Constant) and isinstance(x.value, int) and not isinstance(x.value, bool) and tn == "int":
                 return ast.Constant(value=True)
         return node
+    if isinstance(node, ast.BinOp) and isinstance(node.op, ast.Add) and isinstance(node.left, ast.List) and isinstance(node.right, ast.List):
+        return ast.List(elts=list(node.left.elts) + list(node.right.elts), ctx=ast.Load())
     if isinstance(node, ast.Subscript):
         v, s = node.value, node.slice
+        if isinstance(v, ast.BinOp) and isinstance(v.op, ast.Add) and isinstance(v.left, ast.List) and isinstance(s, ast.Constant) and isinstance(s.value, int):
+            if 0 <= s.value < len(v.left.elts) and not any(isinstance(x, ast.Starred) for x in v.left.elts):
+                return v.left.elts[s.value]
         if isinstance(v, (ast.Tuple, ast.List)) and isinstance(s, ast.Constant) and isinstance(s.value, int):
             if not any(isinstance(x, ast.Starred) for x in v.elts) and -len(v.elts) <= s.value < len(v.elts):
                 return v.elts[s.value]
@@ -342,6 +350,20 @@ def simp1(node: ast.AST) -> ast.AST:
     return node
 
 
+_FLIP = {ast.IsNot: ast.Is, ast.NotEq: ast.Eq, ast.NotIn: ast.In, ast.GtE: ast.Lt, ast.LtE: ast.Gt}
+
+
+def canon_test(t: ast.AST) -> Tuple[str, bool]:
+    """(canonical atom, polarity): `a is not b` = not `a is b`, `a >= b` = not `a < b`, ..."""
+    pol = True
+    while isinstance(t, ast.UnaryOp) and isinstance(t.op, ast.Not):
+        t, pol = t.operand, not pol
+    if isinstance(t, ast.Compare) and len(t.ops) == 1 and type(t.ops[0]) in _FLIP:
+        t = ast.Compare(left=t.left, ops=[_FLIP[type(t.ops[0])]()], comparators=t.comparators)
+        pol = not pol
+    return ast.dump(t), pol
+
+
 def decide(test: ast.AST) -> Optional[bool]:
     if isinstance(test, ast.Constant):
         return bool(test.value)
@@ -370,6 +392,11 @@ class PE:
         self.model = model
         self.inline_helpers = inline_helpers
         self._site_ids: Dict[tuple, int] = {}
+        self.path_mode = False
+        self._prefix: List[bool] = []
+        self._cursor = 0
+        self._taken: List[bool] = []
+        self._pending: List[List[bool]] = []
 
     # ------------------------------------------------------------------ binding
     def bind(self, f: FuncInfo, call_args: List[ast.AST], call_kws: List[ast.keyword], skip_first: bool) -> Dict[str, ast.AST]:
@@ -438,8 +465,52 @@ class PE:
             w.clsname, w.selfname = w.selfname, None
         w.env = dict(env)
         w.guards = list(guards or [])
+        n_raise = len(res.raises)
         w.block(f.node.body)
+        res.guards_at_end = list(w.guards)
+        # the walk ended in a raise statement reached unconditionally on this path
+        res.ended_by_raise = w.dead and len(res.raises) > n_raise and w.last_exit == "raise"
         return res
+
+    # ------------------------------------------------------------------ path-sensitive mode
+    def run_paths(self, f: FuncInfo, env: Dict[str, ast.AST], attrs: Optional[Dict[str, ast.AST]] = None, self_cls: Optional[ClassInfo] = None, seed: Optional[Result] = None, max_paths: int = 96, guards=None) -> List[Result]:
+        """Enumerate the paths through f (and the helpers inlined into it) that differ in the
+        outcome of undecidable branch tests outside loops; one Result per path, whose guards are
+        the path condition.  A test repeated on a path is decided by the path condition.
+        Falls back to the joining walk when there are more than max_paths paths."""
+        results: List[Result] = []
+        work: List[List[bool]] = [[]]
+        while work:
+            prefix = work.pop()
+            self._prefix, self._cursor, self._taken, self._pending = prefix, 0, [], []
+            self.path_mode = True
+            try:
+                r = Result()
+                if seed is not None:
+                    r.sites.update(seed.sites)
+                    r.closures.update(seed.closures)
+                res = self.run(f, dict(env), attrs=dict(attrs) if attrs is not None else None, self_cls=self_cls, result=r, guards=guards)
+            finally:
+                self.path_mode = False
+            results.append(res)
+            work.extend(self._pending)
+            if len(results) + len(work) > max_paths:
+                r = Result()
+                if seed is not None:
+                    r.sites.update(seed.sites)
+                    r.closures.update(seed.closures)
+                return [self.run(f, dict(env), attrs=dict(attrs) if attrs is not None else None, self_cls=self_cls, result=r, guards=guards)]
+        return results
+
+    def choose(self) -> bool:
+        if self._cursor < len(self._prefix):
+            d = self._prefix[self._cursor]
+        else:
+            d = True
+            self._pending.append(self._taken + [False])
+        self._cursor += 1
+        self._taken.append(d)
+        return d
 
     def site_id(self, node: ast.AST, f: FuncInfo, ctx_key: str) -> int:
         key = (node.lineno, node.col_offset, getattr(node, 'end_lineno', 0), getattr(node, 'end_col_offset', 0), f.fq + "|" + ctx_key)
@@ -460,6 +531,9 @@ class _Walker:
         self.selfname: Optional[str] = None
         self.clsname: Optional[str] = None
         self.closures: Dict[str, ast.AST] = {}
+        self.assign_depth: Dict[str, int] = {}
+        self.loop_depth = 0
+        self.last_exit = None
         self.dead = False
         self.ctx_key = ""
 
@@ -481,6 +555,8 @@ class _Walker:
             t = self.sub(e.test)
             d = decide(t)
             self._record_calls_in(e.test)
+            if d is None:
+                d = self._path_decide(t)
             if d is True:
                 return self._eval(e.body, top_site)
             if d is False:
@@ -560,6 +636,15 @@ class _Walker:
         sc = simp1(sc)
         if not isinstance(sc, ast.Call) or is_phi(sc):
             return sc
+        # x.append(v) / x.extend([...]) on a local bound to a literal list: update the binding
+        if isinstance(func, ast.Attribute) and isinstance(func.value, ast.Name) and func.attr in ("append", "extend") and len(args) == 1:
+            cur = self.env.get(func.value.id)
+            if isinstance(cur, ast.List) or (is_phi(cur) and all(isinstance(a, ast.List) for a in alts(cur))):
+                add = [args[0]] if func.attr == "append" else (list(args[0].elts) if isinstance(args[0], (ast.List, ast.Tuple)) else [ast.Starred(value=args[0], ctx=ast.Load())])
+                newv = phi([ast.List(elts=list(a.elts) + add, ctx=ast.Load()) for a in alts(cur)])
+                strong = self.assign_depth.get(func.value.id) == len(self.guards)
+                self.env[func.value.id] = newv if strong else phi([cur, newv])
+                return NONE
         if isinstance(sc.func, ast.Name) and (sc.func.id in PURE_BUILTINS or sc.func.id.startswith("$")) and sc.func.id not in self.env:
             return sc
         name = u(sc.func)
@@ -581,6 +666,36 @@ class _Walker:
         target: Optional[FuncInfo] = None
         skip_first = False
         attrs = None
+        # a closure or lambda value being called
+        if isinstance(sc.func, ast.Name) and sc.func.id in self.res.closures:
+            node, cenv, cf, cself = self.res.closures[sc.func.id]
+            fi = FuncInfo(node.name, cf.qualname + ".<locals>." + node.name, cf.module, node, None)
+            env = dict(cenv)
+            env.update(self.pe.bind(fi, sc.args, sc.keywords, skip_first=False))
+            sub = Result(events=self.res.events, returns=[], attrs=self.res.attrs, raises=self.res.raises, sites=self.res.sites, site_nodes=self.res.site_nodes, closures=self.res.closures)
+            w = _Walker(self.pe, fi, sub, self.self_cls, self.depth + 1)
+            w.selfname = cself
+            w.env = env
+            w.guards = self.guards if self.pe.path_mode else list(self.guards)
+            w.loop_depth = self.loop_depth
+            w.ctx_key = self.ctx_key + f">{orig.lineno}:{orig.col_offset}"
+            w.block(node.body)
+            return phi([r for r, _ in sub.returns]) if sub.returns else NONE
+        if isinstance(sc.func, ast.Lambda):
+            lam = sc.func
+            names = [a.arg for a in lam.args.args]
+            env = {n: v for n, v in zip(names, sc.args)}
+            for kw in sc.keywords:
+                if kw.arg:
+                    env[kw.arg] = kw.value
+            sub = Result(events=self.res.events, returns=[], attrs=self.res.attrs, raises=self.res.raises, sites=self.res.sites, site_nodes=self.res.site_nodes, closures=self.res.closures)
+            w = _Walker(self.pe, self.f, sub, self.self_cls, self.depth + 1)
+            w.selfname = None
+            w.env = env
+            w.guards = self.guards if self.pe.path_mode else list(self.guards)
+            w.loop_depth = self.loop_depth
+            w.ctx_key = self.ctx_key + f">{orig.lineno}:{orig.col_offset}"
+            return w.eval(lam.body)
         # super().__init__(...)
         if isinstance(func, ast.Attribute) and isinstance(func.value, ast.Call) and u(func.value.func) == "super" and self.self_cls is not None:
             mro = self.pe.model.mro(self.self_cls)
@@ -601,7 +716,7 @@ class _Walker:
                 return None
             if "property" in m.decorators():
                 return None
-            target, skip_first, attrs = m, True, self.res.attrs
+            target, skip_first, attrs = m, "staticmethod" not in m.decorators(), self.res.attrs
         elif isinstance(func, ast.Name) and self.pe.inline_helpers:
             if func.id in self.env or func.id in NO_INLINE:
                 return None
@@ -613,14 +728,18 @@ class _Walker:
         if any(isinstance(n, (ast.Yield, ast.YieldFrom)) for n in ast.walk(target.node)):
             return None
         env = self.pe.bind(target, sc.args, sc.keywords, skip_first=False) if not skip_first else self.pe.bind(target, sc.args, sc.keywords, skip_first=True)
-        sub = Result(events=self.res.events, returns=[], attrs=attrs if attrs is not None else {}, raises=self.res.raises, sites=self.res.sites, site_nodes=self.res.site_nodes)
+        sub = Result(events=self.res.events, returns=[], attrs=attrs if attrs is not None else {}, raises=self.res.raises, sites=self.res.sites, site_nodes=self.res.site_nodes, closures=self.res.closures)
         w = _Walker(self.pe, target, sub, self.self_cls if attrs is not None else None, self.depth + 1)
         params = target.node.args.posonlyargs + target.node.args.args
-        w.selfname = params[0].arg if (skip_first and params) else None
+        w.selfname = params[0].arg if (skip_first and params and "classmethod" not in target.decorators()) else None
         w.env = env
-        w.guards = list(self.guards)
+        w.guards = self.guards if self.pe.path_mode else list(self.guards)
+        w.loop_depth = self.loop_depth
         w.ctx_key = self.ctx_key + f">{orig.lineno}:{orig.col_offset}"
         w.block(target.node.body)
+        if self.pe.path_mode and self.loop_depth == 0 and w.dead and w.last_exit == "raise":
+            self.dead = True
+            self.last_exit = "raise"
         if attrs is not None:
             self.res.attrs = sub.attrs
         if not sub.returns:
@@ -637,6 +756,7 @@ class _Walker:
     def assign_target(self, t: ast.AST, v: ast.AST) -> None:
         if isinstance(t, ast.Name):
             self.env[t.id] = v
+            self.assign_depth[t.id] = len(self.guards)
         elif isinstance(t, (ast.Tuple, ast.List)):
             if isinstance(v, (ast.Tuple, ast.List)) and len(v.elts) == len(t.elts) and not any(isinstance(x, ast.Starred) for x in v.elts + t.elts):
                 for ti, vi in zip(t.elts, v.elts):
@@ -694,10 +814,12 @@ class _Walker:
             v = self.eval(st.value) if st.value is not None else NONE
             self.res.returns.append((v, list(self.guards)))
             self.dead = True
+            self.last_exit = "return"
         elif isinstance(st, ast.Raise):
             exc = self.eval(st.exc) if st.exc is not None else NONE
             self.res.raises.append((exc, list(self.guards), st))
             self.dead = True
+            self.last_exit = "raise"
         elif isinstance(st, ast.If):
             self._if(st)
         elif isinstance(st, (ast.For, ast.AsyncFor)):
@@ -736,8 +858,9 @@ class _Walker:
                 self.block(st.finalbody)
                 self.dead = self.dead or d
         elif isinstance(st, (ast.FunctionDef, ast.AsyncFunctionDef)):
-            self.closures[st.name] = st
-            self.env[st.name] = ast.Name(id=f"$closure_{st.name}", ctx=ast.Load())
+            cid = f"$closure_{self.pe.site_id(st, self.f, self.ctx_key)}_{st.name}"
+            self.env[st.name] = ast.Name(id=cid, ctx=ast.Load())
+            self.res.closures[cid] = (st, self.env, self.f, self.selfname)
         elif isinstance(st, ast.Assert):
             t = self.eval(st.test)
             self.guards.append((t, True))  # holds afterwards (never popped within this block)
@@ -800,9 +923,50 @@ class _Walker:
                 if rest:
                     self.env[nm] = phi(rest)
 
+    def _path_decide(self, t: ast.AST) -> Optional[bool]:
+        """path mode, outside loops: decide by the path condition or fork"""
+        if not (self.pe.path_mode and self.loop_depth == 0):
+            return None
+        d = self._path_lookup(t)
+        if d is not None:
+            return d
+        d = self.pe.choose()
+        self.guards.append((t, d))
+        return d
+
+    def _path_lookup(self, t: ast.AST) -> Optional[bool]:
+        d0 = decide(t)
+        if d0 is not None:
+            return d0
+        key, kpol = canon_test(t)
+        for g, pol in self.guards:
+            gk, gpol = canon_test(g)
+            if gk == key:
+                return pol if gpol == kpol else (not pol)
+        if isinstance(t, ast.UnaryOp) and isinstance(t.op, ast.Not):
+            r = self._path_lookup(t.operand)
+            return None if r is None else (not r)
+        if isinstance(t, ast.BoolOp):
+            parts = [self._path_lookup(v) for v in t.values]
+            if isinstance(t.op, ast.And):
+                if any(p is False for p in parts):
+                    return False
+                if all(p is True for p in parts):
+                    return True
+            else:
+                if any(p is True for p in parts):
+                    return True
+                if all(p is False for p in parts):
+                    return False
+        return None
+
     def _if(self, st: ast.If) -> None:
         t = self.eval(st.test)
         d = decide(t)
+        if d is None:
+            d = self._path_decide(t)
+            if d is not None:
+                self._narrow(t, d, st.test)
         if d is True:
             self.block(st.body)
             return
@@ -840,6 +1004,13 @@ class _Walker:
         self.res.attrs = self._join_env(attrs1, attrs2)
 
     def _loop_body(self, body, extra_guards):
+        self.loop_depth += 1
+        try:
+            self._loop_body2(body, extra_guards)
+        finally:
+            self.loop_depth -= 1
+
+    def _loop_body2(self, body, extra_guards):
         env_in = dict(self.env)
         attrs_in = dict(self.res.attrs)
         # pass 1 (events discarded), to learn loop-carried values
